@@ -3,7 +3,7 @@
 (* (identifier x per-variant rename x payload kind) next to two fixed variants, under every          *)
 (* rename_all rule, several tag/content key pairs, optionally generic or self-recursive.             *)
 EXTENDS SerdeAttrs, TLC, Json
-CONSTANTS Idents, Renames, Kinds, RuleSet, TagPairs, Flavours, Spellings, Collisions
+CONSTANTS Idents, Renames, Kinds, RuleSet, TagPairs, Flavours, Spellings, Collisions, Marks
 VARIABLES c
 
 Chars(n) == CASE n = "A" -> <<"A">>
@@ -47,7 +47,7 @@ PairOf(n) == CASE n = "type_content" -> <<"type", "content">>
                [] n = "myTag_my_content" -> <<"myTag", "my_content">>
 
 Init == c \in [enum : {"unit", "tagged"}, ident : Idents, rename : Renames, kind : Kinds, rule : RuleSet,
-               tags : TagPairs, flavour : Flavours, spelling : Spellings, collide : Collisions]
+               tags : TagPairs, flavour : Flavours, spelling : Spellings, collide : Collisions, mark : Marks]
 Next == UNCHANGED c
 
 RECURSIVE Str(_)
@@ -68,6 +68,10 @@ InScope == /\ (c.collide # "none" => (c.enum = "tagged" /\ c.flavour = "plain" /
                                         /\ c.tags = "type_content" /\ c.ident = "Foo"))
            /\ (c.enum = "unit" => (c.kind = "unit" /\ c.tags = "type_content" /\ c.flavour = "plain"))
            /\ (c.spelling # "merged" => (c.flavour = "plain" /\ c.tags = "type_content" /\ c.rename = "none"))
+           \* mark: the variant under test carries ONE of serde's one-directional flags (skip_serializing: never written, still read;
+           \* skip_deserializing: never read, still written). Unlike serde(skip) the variant stays part of the wire format, under the
+           \* same string: it still has exactly one case
+           /\ (c.mark # "none" => (c.spelling = "merged" /\ c.flavour = "plain" /\ c.collide = "none" /\ c.tags = "type_content" /\ c.rename \in {"none", "x"}))
 Extra == IF c.enum = "unit" THEN << <<"Other", "unit">> >>
          ELSE << <<"Other", "unit">>, <<"Last", "newtype">> >>
                \o (IF c.flavour = "recursive" THEN << <<"Rec", "newtype">> >> ELSE <<>>)
